@@ -70,7 +70,7 @@ pub fn project_tree(t: &TreeSpec, inn: usize, out: usize) -> TreeSpec {
             TNode::Leaf(LeafSpec::Fresh(a)) => TNode::Leaf(LeafSpec::Fresh(project_aff(a, out, inn))),
             TNode::Leaf(l) => TNode::Leaf(l.clone()),
             TNode::Dec { rows, kids } => TNode::Dec {
-                rows: rows.iter().map(|r| PredRow { a: project_vec(&r.a, inn), b: r.b.clone(), anc: r.anc }).collect(),
+                rows: rows.iter().map(|r| PredRow { a: project_vec(&r.a, inn), b: r.b.clone(), anc: r.anc, scale: r.scale }).collect(),
                 kids: kids.iter().map(|k| k.as_ref().map(|k| node(k, inn, out))).collect(),
             },
         }
@@ -83,12 +83,17 @@ pub fn project_tree(t: &TreeSpec, inn: usize, out: usize) -> TreeSpec {
         root: node(&t.root, inn, out),
         order: t.order.clone(),
         junk: t.junk.clone(),
+        // leaf scaling is not used in histories: added to unscaled operands it creates rows whose
+        // coefficients differ by many orders of magnitude, i.e. LP conditioning problems rather than
+        // properties of the pruning code (uniform row scaling of predicates is kept)
+        leaf_scale: 0,
     }
 }
 
 pub fn project_poly(p: &PolySpec, n: usize) -> PolySpec {
     let pv = |a: &Vec<f64>| project_vec(a, n);
     PolySpec {
+        scales: p.scales.clone(),
         dim: n,
         anchors: p.anchors.iter().map(pv).collect(),
         rows: p
